@@ -313,11 +313,12 @@ def e11_bad_hardcoded(tree, pts, ins, pick):
                  "named_int_text", "named_bool_text"])
     nm = _fresh(_all_names(p))
     if mode == "int_text":
-        p.lst.insert(p.idx, {"tag": "field", "name": None, "type": pick(list(spec.INT_TYPES)), "value": pick(["abc", "1x", "-1", "1.5"])})
+        p.lst.insert(p.idx, {"tag": "field", "name": None, "type": pick(list(spec.INT_TYPES)), "value": pick(["abc", "1x", "-1", "1.5", "+7", "1_000", "0x10"])})
     elif mode == "bool_text":
         p.lst.insert(p.idx, {"tag": "field", "name": None, "type": "bool", "value": pick(["yes", "1", "True"])})
     elif mode == "named_int_text":
-        p.lst.insert(p.idx, {"tag": "field", "name": nm, "type": pick(list(spec.INT_TYPES)), "value": pick(["abc", "1x", "1.5"])})
+        p.lst.insert(p.idx, {"tag": "field", "name": nm, "type": pick(list(spec.INT_TYPES)),
+                             "value": pick(["abc", "1x", "1.5", "-1", "+7", "1_000", "0x10", "1e3"])})
     elif mode == "named_bool_text":
         p.lst.insert(p.idx, {"tag": "field", "name": nm, "type": "bool", "value": pick(["yes", "1", "True"])})
     elif mode in ("enum", "struct"):
